@@ -60,6 +60,16 @@ theorem iterGo_succ {σ : Type} (find : Nat → Option Span) (len : Nat) (f : σ
     | some m =>
       simp only [id]
 
+/-- the loop ends when the matcher finds nothing -/
+theorem iterGo_find_none {σ : Type} (find : Nat → Option Span) (len : Nat) (f : σ → Span → σ × Bool)
+    (fuel lastEnd : Nat) (lastMatch : Option Nat) (st : σ) (h : find lastEnd = none) :
+    iterGo id find len f fuel lastEnd lastMatch st = st := by
+  cases fuel with
+  | zero => simp [iterGo]
+  | succ fuel =>
+    rw [iterGo_succ, h]
+    split <;> rfl
+
 /-- The collected list only grows: the accumulator stays a prefix. -/
 theorem iterGo_prefix (find : Nat → Option Span) (len re : Nat) (atEnd : Bool) :
     ∀ fuel lastEnd lastMatch acc, ∃ t, iterGo id find len (step re atEnd) fuel lastEnd lastMatch acc = acc ++ t := by
